@@ -60,6 +60,7 @@ class Opts:
         self.p_explicit_addr = 0.3
         self.p_gap = 0.2
         self.p_size_attr = 0.4
+        self.p_nearmiss = 0.0
         self.p_ptr_forward = 0.3
         self.p_cc = 0.3
         self.p_index = 0.3
@@ -88,6 +89,7 @@ class WorldGen:
         self.all_names = []      # (mod, name) of every struct name that will exist (for forward pointers)
         self.counter = 0
         self.addr_counter = 0x1000_0000
+        self.nearmiss = None
 
     # ---------------------------------------------------------------- names
     def fresh(self, prefix):
@@ -287,6 +289,11 @@ class WorldGen:
                 fat.append(a_ident('base'))
             emitted = not (s == 0 and arr)
             need = 0 if (packed or a == 0) else (-off) % a
+            if a > 1 and not packed and self.nearmiss is None and rng.random() < o.p_nearmiss * 0.25:
+                # near miss: the field ends up at an offset that is not a multiple of its alignment
+                need = ((-off) % a + rng.choice([1, a // 2 or 1])) % a or 1
+                self.nearmiss = 'misaligned-field'
+                if need % a == 0: need = 1
             r = rng.random()
             if r < o.p_explicit_addr:
                 gap = need + (a if (a and rng.random() < 0.2) else 0)
@@ -332,8 +339,26 @@ class WorldGen:
             if A == 0:
                 A = 1
             pad = (-off) % A
-            if pad or rng.random() < o.p_size_attr:
-                if nregions + (1 if pad else 0) != nregions and not explicit and nregions in (0, 1):
+            # near-miss stream: break exactly one acceptance condition, keeping pyxis's own view of the
+            # type (size `off`, alignment `A`) for the types that embed it.  A correct pyxis rejects the
+            # world; one that has lost the check accepts it and the layout oracles see the difference.
+            miss = None
+            if rng.random() < o.p_nearmiss:
+                kinds = []
+                if pad: kinds.append('size-not-multiple')
+                if maxal > ps and nregions != 1: kinds.append('no-align-attr')
+                if maxal < 16 and off % (maxal * 2) != 0: kinds.append('bigger-align-no-size')
+                if kinds:
+                    miss = rng.choice(kinds)
+                    self.nearmiss = miss
+            if miss == 'size-not-multiple':
+                pad = 0
+            elif miss == 'no-align-attr':
+                explicit = False; A = ps; pad = (-off) % A
+            elif miss == 'bigger-align-no-size':
+                A = maxal * 2; explicit = True; pad = 0
+            if pad or (rng.random() < o.p_size_attr and miss is None):
+                if nregions + (1 if pad else 0) != nregions and not explicit and nregions in (0, 1) and miss is None:
                     # tail padding changes the region count and with it the default alignment
                     explicit = True
                 if rng.random() < 0.5 or not pad:
@@ -463,6 +488,7 @@ class WorldGen:
             allp = [path(*(m.path + [d[2]])) for m in self.mods for d in m.defs]
             rng.shuffle(allp)
             prio = allp if rng.random() < 0.7 else allp[:len(allp) // 2]
+        extras = list(extras) + ([[S('nearmiss'), self.nearmiss]] if self.nearmiss else [])
         return case(cid, self.ps, [modent(path(*m.path), m.sexp()) for m in mods], prio=prio, extras=extras)
 
 
